@@ -10,6 +10,9 @@ A reference returns one of
     EXC          the documented behaviour is an error
     any_(why)    the documentation is silent for these arguments: nothing is demanded
                  except that the call ends in a value or a Garden error
+    lit(x, why)  indices outside the string/list: the comment does not say whether that is an error, but
+                 it does say which items are returned ("from index i (inclusive) to j (exclusive)"): a
+                 Garden error, or exactly the items whose index lies in that range -- never other items
 """
 from collections import namedtuple
 
@@ -30,6 +33,7 @@ Closure = namedtuple("Closure", "src py")
 EXC = ("exc",)
 def val(x): return ("val", x)
 def any_(why): return ("any", why)
+def lit_(x, why): return ("lit", x, why)
 
 HUGE = 1000   # a documented result longer than this is not demanded (range(MIN, MAX))
 
@@ -82,9 +86,8 @@ def s_lines(s):                                                # "Split into a l
     parts = s.split("\n")
     return val(parts[:-1] if parts[-1] == "" else parts)
 def s_substring(s, i, j):                                      # "between the indexes, character offsets"; "abc".substring(1, 99) -> "bc"
-    if i < 0: return any_("from<0")
-    if i > j: return any_("from>to")
-    if i > len(s): return any_("from>len")
+    why = "from<0" if i < 0 else "from>to" if i > j else "from>len" if i > len(s) else None
+    if why: return lit_(s[max(i, 0):max(j, 0)] if i <= j else "", why)
     return val(s[i:j])
 def s_index_of(s, n):                                          # "first index of needle, character offsets"
     if n == "": return any_("empty needle")
@@ -106,7 +109,7 @@ def l_map(l, f): return val([f.py(x) for x in l])              # "call f on ever
 def l_index_of(l, v): return val(Some(l.index(v)) if v in l else NONE)      # "index of the first instance"
 def l_slice(l, i, j):                                          # "from index i (inclusive) to j (exclusive); negative j counts backwards from the end"
     j2 = len(l) + j if j < 0 else j
-    if not (0 <= i <= j2 <= len(l)): return any_("index outside the list")
+    if not (0 <= i <= j2 <= len(l)): return lit_(l[max(i, 0):max(j2, 0)] if i <= j2 else [], "index outside the list")
     return val(l[i:j2])
 def l_enumerate(l): return val([(i, x) for i, x in enumerate(l)])
 def f_range(i, j):                                             # "from i (inclusive) to j (exclusive)"
@@ -168,6 +171,7 @@ def call_src(name, args):
 
 
 def reference(name, args):
-    """('val', text) | ('exc',) | ('any', why)"""
+    """('val', text) | ('exc',) | ('any', why) | ('lit', text, why)"""
     r = REF[name][2](*args)
+    if r[0] == "lit": return ("lit", show(r[1]), r[2])
     return ("val", show(r[1])) if r[0] == "val" else r
